@@ -330,6 +330,43 @@ def table_and_once(ctx, prog, body):
     ctx.floor("R-C06-table", "packet variants with a row", n_rows, 14)
 
 
+def wake_points(prog, body, state="InflightFull"):
+    """blocks of handle_device_payload that guarantee the handler's own connection is rescheduled with a reason that
+    wakes a tracker paused as `state`: direct reschedule calls inside the packet loop, and assignments `flag = true` of a
+    bool flag that guards such a reschedule after the loop"""
+    from .c01 import try_ready_table
+    _, table = try_ready_table(prog)
+    dom = dominators(body)
+    sw0 = packet_switch(body)
+    direct, flagged = set(), set()
+    for bb, t in body.calls():
+        if body.is_cleanup(bb) or not re.search(r"Scheduler::reschedule$", callee_path(t)):
+            continue
+        ks = flatten_src(provenance(body, t["args"][1]))
+        if not (ks and all(x.kind == "param" and x.l == 2 for x in ks)):
+            continue
+        rsn = None
+        for s_ in flatten_src(provenance(body, t["args"][2])):
+            if s_.kind == "agg":
+                rsn = s_.var
+        if table.get((rsn, state)) != "Ready":
+            continue
+        if dominates(body, sw0[0], bb) and bb in reachable_after(body, [sw0[0]]) and sw0[0] in reachable_after(body, [bb]):
+            direct.add(bb)        # inside the per-packet loop
+            continue
+        for d in sorted(dom.get(bb, ()), reverse=True):
+            bt = body.blocks[d]["t"]
+            if bt["k"] == "switch" and bt["otherwise"] != d and dominates(body, bt["otherwise"], bb):
+                l = op_local(bt["on"])
+                dd = single_def(body, l) if l is not None else None
+                if dd and dd[2] == "assign" and dd[3]["rv"]["k"] == "use" and op_local(dd[3]["rv"]["a"]) is not None:
+                    l = op_local(dd[3]["rv"]["a"])
+                if l is not None and body.local_ty(l) == "bool":
+                    flagged |= set(const_assign_blocks(body, l, 1))
+                break
+    return direct, flagged
+
+
 def flush(ctx, prog, body):
     rule = "R-C06-flush"
     force = None
